@@ -239,6 +239,20 @@ def accessor_agreement(ct, rep, rule="accessor-agreement"):
             types["getter"] = block_type_of(ct, calls[0].args[0], ct.mod)
         else:
             rep.fail(rule, ct.mod.path.name, f"Tdf.{g}", getter.node, "getter does not fetch exactly one block by type", construct=f"Tdf.{g} getter")
+        # .. on EVERY path: a getter that hands out a value of its own for an absent type (None, a default) disagrees with
+        # get_block / tdf[...] of the same state, which raise
+        if len(calls) == 1:
+            from ..facts import return_leaves as _leaves
+            for guards_, v_, pe_ in _leaves(getter.node):
+                via = v_
+                if isinstance(via, ast.Name):
+                    defs_ = [a for a in walk_no_nested(getter.node) if isinstance(a, ast.Assign) and len(a.targets) == 1 and isinstance(a.targets[0], ast.Name) and a.targets[0].id == via.id]
+                    via = defs_[0].value if len(defs_) == 1 else via
+                if via is not calls[0] and not (via is not None and norm(via) == norm(calls[0])):
+                    rep.fail(rule, ct.mod.path.name, f"Tdf.{g}", pe_.node if pe_.node is not None else getter.node,
+                             f"a path of the `{g}` getter returns `{norm(v_) if v_ is not None else 'None'}` instead of the result of get_block: "
+                             "for that state the getter and lookup by type disagree (the lookup raises for an absent type)",
+                             construct=f"Tdf.{g} getter returns {norm(v_) if v_ is not None else 'None'}")
         # annotated class
         ann = getter.node.returns
         if ann is not None:
@@ -723,6 +737,10 @@ def run(prog, rep):
     from .c08 import handle_discipline
     rep.attempt(handle_discipline, ct, rep)
     rep.attempt(removal_selects_type, ct, rep)
+    # lookup by type / slot / the list of all blocks decode a live entry through _get_block_class: every block type must reach
+    # the class that implements it (a stub raises NotImplementedError for a block that presence and count report)
+    from .c04 import dispatch_exhaustive
+    rep.attempt(dispatch_exhaustive, ct, rep)
     # 'at every point': a refused add/remove must not leave a phantom entry in the in-memory table
     from ..codecs import Codecs
     from .c07 import path_rules
